@@ -35,7 +35,7 @@ var Def = driver.PropDef{
 // command name as 0) and its arity (negative: at least).
 type spec struct {
 	first, last, step, arity int64
-	pairs                  bool // arguments after the name come in pairs (MSET)
+	pairs                    bool // arguments after the name come in pairs (MSET)
 }
 
 var k1 = func(arity int64) spec { return spec{1, 1, 1, arity, false} }
@@ -142,7 +142,7 @@ func Run(c *core.Ctx) {
 		c.Check("R2.table", key, e.pos, ok, detail)
 		if cv.F > 0 {
 			c.Check("R3.prefix", key, e.pos, cv.P == cv.F,
-				fmt.Sprintf("the first key of %s is argument %d, so arguments [0,%d) must be copied in front of the kept keys; the interpreter copies a prefix of %d: e.g. BITOP AND d s1 s2 is forwarded as BITOP d s1 s2 (operation word lost) whenever a key filter is configured", strings.ToUpper(e.name), cv.F, cv.F, cv.P))
+				fmt.Sprintf("the first key of %s is argument %d, so arguments [0,%d) must be copied in front of the kept keys; the interpreter copies a prefix of %d: whenever a key filter is configured the leading non-key argument(s) are lost even if all keys pass (BITOP AND d s1 s2 is forwarded as BITOP d s1 s2)", strings.ToUpper(e.name), cv.F, cv.F, cv.P))
 		}
 	}
 	c.Expect("R2.table", 65)
@@ -155,6 +155,9 @@ func Run(c *core.Ctx) {
 
 	// ---- R4, R5
 	wiring(c, it, wrap, fkey)
+	c.Expect("R5.predicate", 3)
+	c.Expect("R4.verdict", 9)
+	c.Expect("R4.caller", 2)
 }
 
 func srcOr(c *core.Ctx, e ast.Expr, dflt string) string {
@@ -349,6 +352,9 @@ func compare(cv convention, sp spec, cmd string) (bool, string) {
 		for _, k := range got {
 			inGot[k] = true
 		}
+		if len(got) == 0 {
+			return false, fmt.Sprintf("`%s` (%d arguments): Redis keys are at %v but no argument is examined, so the verdict is 'no key passed' and the command is dropped even when every key passes the filter", line, n, ref)
+		}
 		for _, k := range ref {
 			if !inGot[k] {
 				return false, fmt.Sprintf("`%s` (%d arguments): argument %d is a key for Redis (keys at %v) but is never passed to FilterKey (tested: %v); with a blacklist matching only k%d the command is still forwarded naming k%d, and with a whitelist matching only k%d it is dropped", line, n, k, ref, got, k, k, k)
@@ -361,9 +367,6 @@ func compare(cv convention, sp spec, cmd string) (bool, string) {
 				}
 				return false, fmt.Sprintf("`%s` (%d arguments): argument %d is not a key for Redis (keys at %v) but is filtered as one (tested: %v): a value that happens to match a prefix changes which command is forwarded", line, n, k, ref, got)
 			}
-		}
-		if len(got) == 0 {
-			return false, fmt.Sprintf("`%s`: no key is examined at all", line)
 		}
 		end := got[len(got)-1] + cv.C
 		tail := cv.Ta*n + cv.Tb
